@@ -30,7 +30,7 @@ CHECKS = {
    note="structured families instead of all int64/uint32; list-form reverse order of BigU32s is only checked for count (statement is silent on list order)"),
  "C06": dict(engine="H", tech=H, ref="DESIGN.md §3 C06",
    text="Every history of clock readings relative to the generator's current millisecond (backwards, stalled, forward, far future; restart with the last id) up to length 5 quick / 7 thorough on the real HardNode from start states seeded at the step wrap; MonoNode under a virtual non-decreasing clock with stalled readings inside its spin loop after a 4094-call warm-up; UnixNanoID ts histories of length 7/9; each of the 12 layouts (node bits x node-at-lowest x epoch) in its own process.",
-   note="clock seams: snowflake._HookNow via overlay hook, time.Now/Since in mono.go and nano.go redirected to zverif/vtime by the overlay; readings stay inside the timestamp width"),
+   note="clock seams: snowflake._HookNow via overlay hook, time.Now/Since in mono.go and nano.go redirected to zverif/vtime by the overlay; readings stay inside the timestamp width; concurrent clause: engine-S companion harness/c06s - 2-3 goroutines x 1-2 Generate calls with the explorer deciding at every clock reading whether the clock stalls, advances or (wall clock) steps back: ids distinct, per-thread increasing, real-time order respected (coarse and fine mode)"),
  "C07": dict(engine="I", tech=I, ref="DESIGN.md §3 C07",
    text="Per layout (3 node widths x node-at-lowest x 3 epochs, one process each): ids from a boundary timestamp family (0,1,999..,2^k±1,max width, calendar boundaries ±1 ms for 2000-2300, every millisecond of windows at 8 anchor dates) x (node,step) corners plus ALL low-bit values for 1 (quick) / 3 (thorough) timestamps: IDFields/recombine, IDParse/IDParseEx, CnStyle/FromChStyle (24 chars, exact text), order of adjacent ids; TimeBetweenID/TimeIDRange for all ordered pairs of boundary instants with ids probed around both endpoints.",
    note="structured family instead of all 2^63 ids; config globals set through the overlay hook VerifSetConfig"),
@@ -39,13 +39,13 @@ CHECKS = {
    note="only calls that cannot block are issued; try-close on a closed / try-clear on a cleared queue may answer either way; PriQueue capacity 0 left out"),
  "C04": dict(engine="H", tech=H, ref="DESIGN.md §3 C04",
    text="Breadth-first to a fixpoint over all operation sequences (Set/SetIfAbsent/SetAndGetRemoved x 3 keys x sizes 0,1,2,5, Get/Peek/Exist/Delete, Clear, SetCapacity 0,1,3,4) on the real cache.LRUCache and tiny.LRUCache; state key = (recency order, entry weights, capacity) = the complete observable state; every call result, Keys, Items (value identity), Stats and Size<=Capacity compared with a slice-based ideal LRU after every step. Wide variants (1,2,3 shards, modulo/xxhash) against one ideal LRU per shard, all keys probed after every step.",
-   note="SetIfAbsent on a present key may or may not refresh recency; the concurrent clause is covered by the engine-S scenarios listed in DESIGN.md once built"),
+   note="SetIfAbsent on a present key may or may not refresh recency; concurrent clause: engine-S companion harness/c04s - 3 threads x 1-2 calls on colliding keys at a capacity that forces eviction, linearizability of the recorded history and of the final Items against the ideal LRU, explored at synchronisation points (preemption bound 3/4) and at every statement boundary of the cache code (fine mode, bound 2)"),
  "C03": dict(engine="H", tech=H, ref="DESIGN.md §3 C03",
    text="Breadth-first to a fixpoint over all operation sequences on the real B-tree for degrees 2,3,4 over 8 keys (11 keys for degree 2 in the thorough tier), states merged on the canonical node shape; on every transition structure, length and full content (with item versions) are compared with a sorted slice, and on every newly reached shape ALL scans from EVERY pivot with early stop after 0/1/2/all items, Min/Max/Get/Has. Two-tree clone programs (writes to either side, re-clone, swap) against two independent models; the locked wrapper with Update/UpdateOrInsert over all key pairs and scans x pivots x 4 filters x 5 limits.",
-   note="hooks VerifCheck/VerifShape/VerifInner come from the overlay; the concurrent clauses (clone writers, wrapper readers/writers) are engine-S scenarios"),
+   note="hooks VerifCheck/VerifShape/VerifInner come from the overlay; concurrent clauses: engine-S companion harness/c03s - readers/writers of the locked wrapper (linearizable w.r.t. the sorted set, coarse and fine mode) and writers of a tree and of its clone in different goroutines (each side equals its own model afterwards)"),
  "C05": dict(engine="H", tech=H, ref="DESIGN.md §3 C05",
    text="Breadth-first over all sequences (depth 5 quick / 7 thorough) of Set (7 option combinations) / Get (plain, remove-after-get, update-ttl) / Remove / Clear / clock advance over 3 keys on the real in-memory TTL cache for size 0..3 x default ttl 0/3 under a virtual clock, states merged on (complete implementation state, reference state); every answer plus a final probe of all keys on a replayed copy is checked against a nondeterministic 'expired = absent' reference with a one-sided eviction clause; the same histories on the in-memory and the redis-backed cache over an in-memory fake redis.Cmdable must agree step by step.",
-   note="no clock reading falls exactly on a deadline (odd ttls, +2 s ticks); fake redis implements the seven commands used with expiry at now+duration; concurrent remove-after-get race is an engine-S scenario"),
+   note="no clock reading falls exactly on a deadline (odd ttls, +2 s ticks); fake redis implements the seven commands used with expiry at now+duration; concurrent clause: engine-S companion harness/c05s - remove-after-get / set / set-if-absent / remove racing on one key, at most one consuming read per Set, linearizable (coarse and fine mode)"),
  "C17": dict(engine="I+H", tech=I+"; "+H, ref="DESIGN.md §3 C17",
    text="Routing: shard counts 1..128, 211, 509, 1024, 4093 x every supported key type at its boundary values through SimpleIndex and XHashIndex (in range, stable across calls and instances, unsigned integers modulo shards) and SearchIndex on boundary probes (monotone, onto, spans 0..n-1). Containers: breadth-first over operation sequences on (sharded, unsharded) pairs of Map, LRU, tiny LRU, KeyLocker, TKeyLocker incl. multi-key calls, SemMap for 1,2,3,73 shards with modulo and xxhash routing; answers and hook-observed per-key state compared after every step.",
    note="the 2^64 hash values between probes are covered by monotonicity only; LRU capacity chosen so the per-shard bound never binds; only non-blocking lock/semaphore calls; a HitGroup that is not a Bs is not routed through xxhash (undefined)"),
